@@ -143,7 +143,13 @@ fn run_t<T: Elem>(case: &mut Case) -> Result<Outcome, String> {
     let m1 = case.src.usize_below(n);
     let m2 = case.src.usize_below(n);
     let pattern = PATTERNS[case.src.below(if T::EXACT { 6 } else { 7 }) as usize];
-    let a = gen_band::<T>(&mut case.src, n, m1, m2, pattern);
+    let a0 = gen_band::<T>(&mut case.src, n, m1, m2, pattern);
+    // float types: the whole system may live at a very small or very large scale (exact power of two)
+    let gk: i32 = if !T::EXACT && case.src.below(3) == 0 { case.src.small_int(80) as i32 } else { 0 };
+    let a: M<T> = if gk == 0 { a0.clone() } else { a0.iter().map(|r| r.iter().map(|v| v.scale2(gk)).collect()).collect() };
+    if gk != 0 {
+        case.class("globally scaled by 2^k, |k| <= 80");
+    }
     let pad1 = T::small(&mut case.src);
     let mut pad2 = T::small_nz(&mut case.src) + T::from_int(7);
     if pad2.same(&pad1) {
@@ -200,8 +206,9 @@ fn run_t<T: Elem>(case: &mut Case) -> Result<Outcome, String> {
 
     // ---- exact facts about the matrix
     let ac = mat_c(&a);
-    let info = refla::gepp(&ac, None);
-    let mut exact = mat_exact(&a).map(|ax| refla::det_rank(&ax));
+    let ac0 = mat_c(&a0);
+    let info = refla::gepp(&ac0, None);
+    let mut exact = mat_exact(&a0).map(|ax| refla::det_rank(&ax));
     if crate::rat::overflowed() {
         if T::EXACT {
             return Ok(Outcome::Discard("rat-overflow"));
@@ -242,8 +249,16 @@ fn run_t<T: Elem>(case: &mut Case) -> Result<Outcome, String> {
             if !d1.finite() {
                 return Err(format!("det is not finite: {:?} (exact {:?})", d1, det_x));
             }
-            let err = refla::cabs(refla::csub(d1.to_c(), T::x_to_c(det_x)));
-            let unit = (n * n * n) as f64 * EPS * info.growth.max(1.0) * hadamard(&ac);
+            // undo the global scaling exactly: det(2^k A) = 2^(k n) det(A)
+            let mut dsc = d1;
+            let mut left = -(gk as i64) * n as i64;
+            while left != 0 {
+                let step = left.clamp(-900, 900);
+                dsc = dsc.scale2(step as i32);
+                left -= step;
+            }
+            let err = refla::cabs(refla::csub(dsc.to_c(), T::x_to_c(det_x)));
+            let unit = (n * n * n) as f64 * EPS * info.growth.max(1.0) * hadamard(&ac0);
             if unit > 0.0 {
                 crate::calib::note("c04.det err/(n^3 eps rho H)", err / unit, || format!("{} {} n={}", T::NAME, pattern, n));
             }
@@ -256,9 +271,9 @@ fn run_t<T: Elem>(case: &mut Case) -> Result<Outcome, String> {
     // ---- solve
     let nonsingular = match singular {
         Some(s) => !s,
-        None => matches!(cond_inf(&ac), Some(k) if k <= 1e10),
+        None => matches!(cond_inf(&ac0), Some(k) if k <= 1e10),
     };
-    if nonsingular && (T::EXACT || matches!(cond_inf(&ac), Some(k) if k <= 1e10)) {
+    if nonsingular && (T::EXACT || matches!(cond_inf(&ac0), Some(k) if k <= 1e10)) {
         case.class("solve");
         let bv = to_vector(&rhs);
         let s1 = match catch(|| b1.solve(&bv)) {
@@ -308,7 +323,7 @@ fn run_t<T: Elem>(case: &mut Case) -> Result<Outcome, String> {
     let bd = build(&d, n, m1, m2, pad2);
     let s = T::small(&mut case.src);
     let snz = T::small_nz(&mut case.src);
-    let exact_arith = T::EXACT || pattern != "continuous";
+    let exact_arith = T::EXACT || (pattern != "continuous" && gk == 0);
     if exact_arith {
         band_entries_eq(&(&b1 + &bd), &zip_band(&a, &d, |p, q| p + q), n, m1, m2, "&B + &D")?;
         band_entries_eq(&(b1.clone() + bd.clone()), &zip_band(&a, &d, |p, q| p + q), n, m1, m2, "B + D")?;
@@ -371,7 +386,7 @@ impl Prop for C04 {
         "stream prefix (element type in {rat,f64,cmplx}, n in 1..=10, m1 in 0..n, m2 in 0..n): all 3*385 configurations are enumerated in every run \
          (several random value tails each) and additionally sampled at random; value pattern in {mixed sign, negative diagonal, zero diagonal with non-zero \
          sub-diagonal, tiny positive sub-diagonal under an O(1) negative diagonal, singular (zero column / zero row / proportional columns), positive, continuous(floats)}; \
-         every matrix is built twice with two different padding values. Index read-back, &B*&v and B*v vs the dense product, det vs the exact determinant \
+         every matrix is built twice with two different padding values; float systems are additionally scaled as a whole by 2^k, |k| <= 80, with probability 1/3. Index read-back, &B*&v and B*v vs the dense product, det vs the exact determinant \
          (fraction elimination), solve on every nonsingular system (A x == b exactly over rat; backward error bound over floats), independence of the padding, \
          operand snapshots, all arithmetic operators and compound assignments, fill_band, fill. \
          Non-trivial: n >= 3, m1 >= 1, the reference partial-pivoting elimination exchanges rows at least once and the lower band has a negative entry; \
